@@ -5,7 +5,7 @@ Import ListNotations.
 From KV Require Import Model.Limit.
 
 Record case := Case {
-  ckind : nat;                       (* 0 LimitPlan 1 FinalLimitPlan 2 select 3 ordered 4 aggregated 5 delete 6 aggregated without GROUP BY 7 range scan 8 point reads 9 delete over point reads 10 fields with an alias used in WHERE 11 aggregate under ORDER BY *)
+  ckind : nat;                       (* 0 LimitPlan 1 FinalLimitPlan 2 select 3 ordered 4 aggregated 5 delete 6 aggregated without GROUP BY 7 range scan 8 point reads 9 delete over point reads 10 fields with an alias used in WHERE 11 aggregate under ORDER BY 12 groups interleaved in key order *)
   cB : nat; cstart : nat; ccount : nat;
   cbs : list (list nat);             (* the child's batches: rows identified by their index *)
   obs_batch : option (list nat);     (* rows the implementation returned, batch mode *)
